@@ -73,6 +73,8 @@ type seenBody struct {
 	attempts []int // outcome kinds served, in order
 	busy     bool
 	lastEnd  int64 // when the outcome of the latest attempt was decided
+	raw      []byte
+	identity bool // sent with Content-Encoding: identity: the body is the protobuf message itself
 }
 
 type upstream struct {
@@ -134,7 +136,7 @@ func (s *upstream) ServeHTTP(w http.ResponseWriter, r *http.Request) {
 	s.mu.Lock()
 	b := s.bodies[id]
 	if b == nil {
-		b = &seenBody{idx: len(s.order), headers: hv}
+		b = &seenBody{idx: len(s.order), headers: hv, raw: raw, identity: r.Header.Get("Content-Encoding") == "identity"}
 		plain := raw
 		switch r.Header.Get("Content-Encoding") {
 		case "deflate":
@@ -598,13 +600,18 @@ func runFwd(in input) []hlib.Case {
 		for _, n := range names {
 			hl = append(hl, hlib.Pair(hlib.Bytes(n), hlib.Bytes(b.headers[n])))
 		}
-		bl = append(bl, hlib.App("Body", natList(b.ids), hlib.Bytes(enc), hlib.List(hl), hlib.Z(stopUB[b.idx])))
+		// identity-encoded bodies go to Coq as they are: PbWire's decoder must find the same items
+		rawTerm := "None"
+		if b.identity && len(b.raw) <= 6000 {
+			rawTerm = hlib.App("Some", hlib.BytesB(b.raw))
+		}
+		bl = append(bl, hlib.App("Body", natList(b.ids), hlib.Bytes(enc), hlib.List(hl), rawTerm, hlib.Z(stopUB[b.idx])))
 	}
 	ev.mu.Lock()
 	evs := hlib.List(ev.l)
 	nev := len(ev.l)
 	ev.mu.Unlock()
-	c.Coq = hlib.App("FwdCase", hlib.Z(int64(window)), hlib.List(xhl), hlib.StrList(in.Dyn), u.utf8Table(), hlib.List(il), hlib.Bool(manual), nat(nFlush), evs, hlib.List(bl),
+	c.Coq = hlib.App("FwdCase", hlib.Z(int64(window)), hlib.Bool(compress), hlib.Bytes(ctype), hlib.List(xhl), hlib.StrList(in.Dyn), u.utf8Table(), hlib.List(il), hlib.Bool(manual), nat(nFlush), evs, hlib.List(bl),
 		hlib.App("Ctr", nat(int(created)), nat(int(sent)), nat(int(retried)), nat(int(dropped)), nat(int(invalid))), notifiedTerm)
 	c.Monitors = mon.l
 	retriedBodies := 0
